@@ -264,7 +264,7 @@ def strategy(tier):
              "gap": st.sampled_from([0, 0.1, 0.5]), "seed": st.integers(0, 10 ** 6),
              "weak": st.lists(st.tuples(st.integers(0, 30), st.integers(1, 12)).map(list), max_size=2)}
         if g == "gen":
-            d["db"] = gen_db.db_specs(gaps=False, pseudo=True, force_sv=True, small=True, max_sites=7, max_alleles=7, twins=True)
+            d["db"] = gen_db.db_specs(gaps=False, pseudo=True, force_sv=True, small=True, max_sites=7, max_alleles=5, twins=True, orphan_core=True)
         return st.fixed_dictionaries(d)
 
     opt = st.sampled_from(["toy", "gen", "gen"]).flatmap(opt_for)
